@@ -139,3 +139,50 @@ class FixedSpy(_SpyBase):
     def render(self, size, focus=False):
         self.log.append(("render", self.name, tuple(size), focus))
         return self._canvas([spy_row(self.base, i, self.cols) for i in range(self.n)], self.cols)
+
+
+class CursorSpy(RowSpy):
+    """flow widget with the cursor protocol: `n` rows, a cursor on row `crow` (column 0) shown when rendered with
+    focus; 'up' / 'down' move the cursor inside the widget and are reported as handled, at the edges they are
+    returned unhandled (like a multi-line Edit)"""
+
+    def __init__(self, base, n, keys=(), buttons=(), log=None, name="cursorspy"):
+        super().__init__(base, n, True, keys, buttons, log, name)
+        self.crow = 0
+
+    def set_rows(self, n):
+        self.crow = max(0, min(self.crow, n - 1))
+        super().set_rows(n)
+
+    def keypress(self, size, key):
+        if key == "down" and self.crow < self.n - 1:
+            self.crow += 1
+        elif key == "up" and self.crow > 0:
+            self.crow -= 1
+        else:
+            return super().keypress(size, key)
+        self.log.append(("keypress", self.name, tuple(size), key, True))
+        self._invalidate()
+        return None
+
+    def get_cursor_coords(self, size):
+        return (0, self.crow) if self.n else None
+
+    def get_pref_col(self, size):
+        return 0
+
+    def move_cursor_to_coords(self, size, col, row):
+        if not self.n:
+            return False
+        self.crow = max(0, min(self.n - 1, row if isinstance(row, int) else 0))
+        self._invalidate()
+        return True
+
+    def render(self, size, focus=False):
+        (maxcol,) = size
+        self.log.append(("render", self.name, tuple(size), focus))
+        canv = self._canvas([spy_row(self.base, i, maxcol) for i in range(self.n)], maxcol)
+        if focus and self.n:
+            canv = urwid.CompositeCanvas(canv)
+            canv.cursor = (0, self.crow)
+        return canv
